@@ -335,6 +335,15 @@ def gen_boundary(rng, tier):
         n = rng.randint(5, 12)
         return _case(rng, fn="MapReduce", workers=rng.choice([-1, 0, 1]), items=[[_w(1), _w(2), _w(3)] for _ in range(n)],
                      rtake=rng.choice([-1, 0, 1, 2]), rafter=[_w(7)] if rng.random() < 0.5 else [], cls="boundary")
+    if r < 0.8:   # defaultWorkers made observable: every mapper waits (bounded, 300 ms) until 17 have started - with
+        # the default 16 workers that never happens (the wait runs out), with more workers 17 run at once
+        n = rng.randint(18, 22)
+        c = _case(rng, fn="MapReduce", noopt=True, items=[[{"op": "barrier"}] for _ in range(n)], rtake=-1, rafter=[],
+                  cls="boundary")
+        for it in c["items"]:
+            it["acts"] = [a for a in it["acts"] if a["op"] == "barrier"]
+        c["barrier"] = 17
+        return c
     n = rng.randint(17, 24)   # default worker count
     return _case(rng, fn=rng.choice(["MapReduce", "ForEach", "MapReduceVoid"]), noopt=True, items=[[] for _ in range(n)],
                  rtake=-1, rafter=[], cls="boundary")
@@ -532,7 +541,7 @@ def encode(case, obs):
     aeobs = clist([cZ(v) for v in obs.get("ae", [])])
     return "mkcase %s %s %s %s %s %s %s %s %s %s %s %s (%s) %s %s" % (
         cnat(FNS.index(case["fn"])), cZ(case["workers"]), cbool(bool(case.get("noopt"))),
-        clist([clist([_mact(a) for a in it["acts"]]) for it in case["items"]]),
+        clist([clist([_mact(a) for a in it["acts"] if a["op"] != "barrier"]) for it in case["items"]]),
         _optn(case["gpanic"]), _optn(case["rtake"]), clist([_ract(a) for a in case["rafter"] if a["op"] in ("write", "panic")]), cnat(ctx),
         gate, aeops, aeobs,
         clist([_ev(e) for e in obs["trace"]]), _out(obs["outcome"]), cnat(obs["leaked"]), cbool(small))
